@@ -145,18 +145,22 @@ Qed.
 Print Assumptions C08_same_elaboration.
 
 (* ---- "new definitions get fresh, non-colliding names" ----
-   _make_instance_unique asks _get_unique_name_modifier for the first counter value k, counting up from the
-   module counter, such that no definition of the library carries the name nm_sdn_unique_<k> and - when the
-   cell has an EDIF identifier - none carries, without case, the identifier <identifier>_sdn_unique_<k>
-   (Xform.fresh_ctr). The module counter is left at k + 1.
+   When the cell has a name or an EDIF identifier, _make_instance_unique asks _get_unique_name_modifier for
+   the first counter value k, counting up from the module counter, such that - when the cell has a name nm -
+   no definition of the library carries the name nm_sdn_unique_<k> and - when the cell has an EDIF
+   identifier - none carries, without case, the identifier <identifier>_sdn_unique_<k> (Xform.fresh_ctr).
+   The module counter is left at k + 1. (A cell with an identifier and no name used to be copied without
+   renaming: finding C08-uniquify-unnamed-identifier, repaired.)
    LT n0 s: the name table, and under the EDIF policy the identifier table, of every library l < n0 that
    has one is exactly the names (case-folded identifiers) of its definitions (a consequence of the C10
    invariant NsInv, hence true in every reachable state); PL n0 s: libraries that hold definitions are
    older than n0. One completed round adds the copy d' = next s to the library of the original; if the
-   original is named nm the copy is named nm_sdn_unique_<k> for a k >= the counter and the counter becomes
-   k + 1; NO definition of the library carried that name, none carried the new identifier up to case, and
-   every candidate between the counter and k was in use (k is the first free one); the names and
-   identifiers of all other definitions are unchanged; the table invariant holds again. *)
+   original has a name or an identifier, the copy carries name_sdn_unique_<k> (when the original is named)
+   and <identifier>_sdn_unique_<k> (when it has an identifier) for a k >= the counter and the counter
+   becomes k + 1; NO definition of the library carried that name, none carried the new identifier up to
+   case, and every candidate between the counter and k was in use (k is the first free one); a cell with
+   neither gives a copy with neither and leaves the counter alone; the names and identifiers of all other
+   definitions are unchanged; the table invariant holds again. *)
 Theorem C08_round_fresh_name : forall n0 x inst d x',
   UF (st x) -> iref (st x) inst = Some d -> inst < next (st x) -> n0 <= next (st x) -> LT n0 (st x) -> PL n0 (st x) ->
   make_instance_unique x inst = (x', None) ->
@@ -166,17 +170,18 @@ Theorem C08_round_fresh_name : forall n0 x inst d x',
     (forall l, l <> lib -> kids (st x') RDefs l = kids (st x) RDefs l) /\
     (forall l c, In c (kids (st x) RDefs l) ->
        get_str (st x') c str_NAME = get_str (st x) c str_NAME /\ ident_key (st x') c = ident_key (st x) c) /\
-    match get_str (st x) d str_NAME with
-    | Some nm => exists k, uniq_ctr x <= k /\ uniq_ctr x' = S k /\
-                 get_str (st x') (next (st x)) str_NAME = Some (nm ++ str_uniq ++ dec k) /\
+    if orb (is_some (get_str (st x) d str_NAME)) (is_some (get_str (st x) d str_IDENT)) then
+      exists k, uniq_ctr x <= k /\ uniq_ctr x' = S k /\
+                 get_str (st x') (next (st x)) str_NAME = option_map (fun nm => nm ++ str_uniq ++ dec k) (get_str (st x) d str_NAME) /\
                  ident_key (st x') (next (st x)) = option_map (fun i => lower (i ++ str_uniq ++ dec k)) (get_str (st x) d str_IDENT) /\
-                 (forall c, In c (kids (st x) RDefs lib) -> get_str (st x) c str_NAME <> Some (nm ++ str_uniq ++ dec k)) /\
+                 (forall nm c, get_str (st x) d str_NAME = Some nm -> In c (kids (st x) RDefs lib) ->
+                    get_str (st x) c str_NAME <> Some (nm ++ str_uniq ++ dec k)) /\
                  (forall i c w, get_str (st x) d str_IDENT = Some i -> In c (kids (st x) RDefs lib) ->
                     get_str (st x) c str_IDENT = Some w -> lower w <> lower (i ++ str_uniq ++ dec k)) /\
                  (forall j, uniq_ctr x <= j -> j < k ->
-                    suffix_taken (st x) (kids (st x) RDefs lib) nm (get_str (st x) d str_IDENT) (str_uniq ++ dec j) = true)
-    | None => get_str (st x') (next (st x)) str_NAME = None /\ uniq_ctr x' = uniq_ctr x
-    end.
+                    suffix_taken (st x) (kids (st x) RDefs lib) (get_str (st x) d str_NAME) (get_str (st x) d str_IDENT)
+                                 (str_uniq ++ dec j) = true)
+    else get_str (st x') (next (st x)) str_NAME = None /\ ident_key (st x') (next (st x)) = None /\ uniq_ctr x' = uniq_ctr x.
 Proof. intros n0 x inst d x' U Ei Hi Hn HL HP E. apply (round_names n0 x inst d U Ei Hi Hn HL HP x' E). Qed.
 Print Assumptions C08_round_fresh_name.
 
@@ -192,7 +197,8 @@ Theorem C08_round_never_out_of_fuel : forall x inst, snd (make_instance_unique x
 Proof. exact round_never_out_of_fuel. Qed.
 Print Assumptions C08_round_never_out_of_fuel.
 
-(* a round NEVER fails because of the name it chose (the repaired defect C08-uniquify-name-clash).
+(* a round NEVER fails because of the name or the identifier of the copy (the repaired defects
+   C08-uniquify-name-clash and C08-uniquify-unnamed-identifier).
    make_instance_unique is: Definition.clone, the renaming block, add_definition, the reference change
    (C08_round_shape, by computation); ns_add_conflict is the naming test of NamespaceManager.add, the only
    way add_definition can refuse a parentless definition offered to a library for its name or identifier
@@ -200,8 +206,8 @@ Print Assumptions C08_round_never_out_of_fuel.
    reachable by editing calls - with any counter values, any fuel, whether or not the run completes, and
    whatever names and identifiers the library already holds (uniq_rounds lists the states in which the walk
    enters _make_instance_unique) - once the cell has been copied and the copy renamed, that test passes for
-   the copy of a named cell: add_definition is not refused by the name/identifier check. (A cell without a
-   name is not renamed by _make_instance_unique at all.) *)
+   the copy - of a cell with a name, with an EDIF identifier, with both, or with neither (no hypothesis on
+   the cell any more): add_definition is not refused by the name/identifier check. *)
 Theorem C08_round_shape : forall x inst,
   make_instance_unique x inst =
   match iref (st x) inst with
@@ -212,7 +218,7 @@ Theorem C08_round_shape : forall x inst,
       | Some lib =>
           let '(r, d') := clone_definition (st x) d in
           liftR x r (fun x1 =>
-            match named_block x1 lib d d' with
+            match rename_block x1 lib d d' with
             | (x5, Some e) => (x5, Some e)
             | (x5, None) =>
                 liftR x5 (op_add (st x5) RDefs lib d' (Some (S (index_of d (kids (st x) RDefs lib))))) (fun x6 =>
@@ -233,14 +239,14 @@ Theorem C08_add_never_refused_by_name : forall ops u f fuel n t dtop xr i d lib 
   let s := run ops init in
   top s n = Some t -> iref s t = Some dtop ->
   In (xr, i) (uniq_rounds fuel (mkX s u f) (kids s RChildren dtop)) ->
-  iref (st xr) i = Some d -> par (st xr) RDefs d = Some lib -> get_str (st xr) d str_NAME <> None ->
+  iref (st xr) i = Some d -> par (st xr) RDefs d = Some lib ->
   snd (fst (clone_definition (st xr) d)) = None ->
-  named_block (mkX (fst (fst (clone_definition (st xr) d))) (uniq_ctr xr) (flat_ctr xr)) lib d (next (st xr)) = (x5, None) ->
+  rename_block (mkX (fst (fst (clone_definition (st xr) d))) (uniq_ctr xr) (flat_ctr xr)) lib d (next (st xr)) = (x5, None) ->
   ns_add_conflict (st x5) lib (next (st xr)) KDefinition = false.
 Proof.
-  intros ops u f fuel n t dtop xr i d lib x5 s Ht Hr Hin Hri Hp Hnm Hc Hnb.
+  intros ops u f fuel n t dtop xr i d lib x5 s Ht Hr Hin Hri Hp Hc Hnb.
   assert (HL : LT (next s) s) by (apply lt_of_nsinv; apply (NsInv.reachable_nsinv ops)).
-  apply (uniquify_add_never_refused_by_name fuel (mkX s u f) n t dtop xr i d lib x5 (reachable_uf ops) HL Ht Hr Hin Hri Hp Hnm Hc Hnb).
+  apply (uniquify_add_never_refused_by_name fuel (mkX s u f) n t dtop xr i d lib x5 (reachable_uf ops) HL Ht Hr Hin Hri Hp Hc Hnb).
 Qed.
 Print Assumptions C08_add_never_refused_by_name.
 
@@ -248,8 +254,7 @@ Print Assumptions C08_add_never_refused_by_name.
 Theorem C08_round_add_never_refused_by_name : forall n0 x inst d lib x5,
   UF (st x) -> iref (st x) inst = Some d -> inst < next (st x) -> n0 <= next (st x) -> LT n0 (st x) -> PL n0 (st x) ->
   par (st x) RDefs d = Some lib -> snd (fst (clone_definition (st x) d)) = None ->
-  named_block (mkX (fst (fst (clone_definition (st x) d))) (uniq_ctr x) (flat_ctr x)) lib d (next (st x)) = (x5, None) ->
-  get_str (st x) d str_NAME <> None ->
+  rename_block (mkX (fst (fst (clone_definition (st x) d))) (uniq_ctr x) (flat_ctr x)) lib d (next (st x)) = (x5, None) ->
   ns_add_conflict (st x5) lib (next (st x)) KDefinition = false.
 Proof. intros n0 x inst d lib x5 U Ei Hi Hn HL HP. apply (round_add_check n0 x inst d U Ei Hi Hn HL HP lib x5). Qed.
 Print Assumptions C08_round_add_never_refused_by_name.
@@ -364,8 +369,8 @@ Example C08_add_never_refused_sample :
   top s 0 = Some 16 /\ iref s 16 = Some 11 /\ map snd (uniq_rounds 20 x (kids s RChildren 11)) = [12] /\
   iref s 12 = Some 5 /\ par s RDefs 5 = Some 1 /\ get_str s 5 str_NAME = Some (s2l "mid"%string) /\
   snd (fst (clone_definition s 5)) = None /\
-  snd (named_block (mkX (fst (fst (clone_definition s 5))) 0 0) 1 5 18) = None /\
-  ns_add_conflict (st (fst (named_block (mkX (fst (fst (clone_definition s 5))) 0 0) 1 5 18))) 1 18 KDefinition = false /\
+  snd (rename_block (mkX (fst (fst (clone_definition s 5))) 0 0) 1 5 18) = None /\
+  ns_add_conflict (st (fst (rename_block (mkX (fst (fst (clone_definition s 5))) 0 0) 1 5 18))) 1 18 KDefinition = false /\
   (* while the name the unrepaired code would have used is refused *)
   name_taken s (kids s RDefs 1) (s2l "mid_sdn_unique_0"%string) = true.
 Proof. vm_compute. repeat split. Qed.
@@ -405,13 +410,16 @@ Example C08_edif_identifier_sample :
   iref s' 6 = Some 11 /\ iref s' 7 = Some 3.
 Proof. vm_compute. repeat split. Qed.
 
-(* the hypothesis "the cell has a name" of C08_add_never_refused_by_name is necessary, in the model as in the
-   implementation: _make_instance_unique renames the copy only [if instance.reference.name is not None]. A
-   cell that carries an EDIF identifier but no name, in a library under the EDIF policy, instantiated twice:
-   the copy (9) keeps the identifier "mid", the naming test refuses it, uniquify ends with ValueError, the
-   copy stays outside the library with its child (10) registered with LEAF. Not the repaired finding (the
-   counter plays no role); reported separately (suspected defect, replayed on both sides by
-   harness/xform_check.py unnamed_identifier_witness). *)
+(* the history of the repaired finding C08-uniquify-unnamed-identifier: a cell that carries an EDIF
+   identifier but no name, in a library under the EDIF policy, instantiated twice. _make_instance_unique
+   used to rename the copy only [if instance.reference.name is not None], so the copy (9) kept the
+   identifier "mid", the naming test of add_definition refused it and uniquify ended with ValueError, the
+   copy outside every library with its child (10) registered with LEAF. Now the suffix search also runs
+   for a cell without a name and the identifier gets the suffix: uniquify completes, the copy carries the
+   identifier mid_sdn_unique_0 and no name, sits right after the cell in the library, instance a (6)
+   references it, the counter ends at 1, every instance met by the walk is unique, the top unfolds as
+   before. The implementation does the same (replayed on every run: harness/xform_check.py
+   unnamed_identifier_witness, corpus/py/c08-uniquify-unnamed-cell.py). *)
 Definition c08_unnamed_design : list op :=
   [ OSetPolicy PolEdif; ONew KNetlist (Some (s2l "n"%string)) []; OCreate RLibs 0 (Some (s2l "work"%string)) [] 0 None;
     OCreate RDefs 1 (Some (s2l "LEAF"%string)) [] 0 None;
@@ -427,10 +435,32 @@ Example C08_unnamed_cell_with_identifier_sample :
   let r := uniquify 20 (mkX s 0 0) 0 in
   let s' := st (fst r) in
   get_str s 3 str_NAME = None /\ get_str s 3 str_IDENT = Some (s2l "mid"%string) /\
-  snd r = Some (XE XValue) /\ next s = 9 /\ next s' = 11 /\ kids s' RDefs 1 = [2; 3; 5] /\ par s' RDefs 9 = None /\
-  drefs s' 2 = [4; 10] /\ iref s' 6 = Some 3 /\ get_str s' 9 str_IDENT = Some (s2l "mid"%string) /\ uniq_ctr (fst r) = 0 /\
-  ns_add_conflict (st (fst (named_block (mkX (fst (fst (clone_definition s 3))) 0 0) 1 3 9))) 1 9 KDefinition = true.
+  match nstab s 1 with Some t => ns_pol t = PolEdif | None => False end /\
+  snd r = None /\ next s = 9 /\ next s' = 11 /\ kids s' RDefs 1 = [2; 3; 9; 5] /\ par s' RDefs 9 = Some 1 /\
+  drefs s' 2 = [4; 10] /\ iref s' 6 = Some 9 /\ iref s' 7 = Some 3 /\ drefs s' 3 = [7] /\ drefs s' 9 = [6] /\
+  get_str s' 9 str_NAME = None /\ get_str s' 9 str_IDENT = Some (s2l "mid_sdn_unique_0"%string) /\
+  get_str s' 3 str_IDENT = Some (s2l "mid"%string) /\ uniq_ctr (fst r) = 1 /\
+  uniq_clean 20 s' (kids s' RChildren 5) = true /\ unfold 3 s' 5 = unfold 3 s 5 /\
+  (* the naming test of add_definition passes for the renamed copy; the identifier the unrepaired code
+     left on the copy is in use *)
+  ns_add_conflict (st (fst (rename_block (mkX (fst (fst (clone_definition s 3))) 0 0) 1 3 9))) 1 9 KDefinition = false /\
+  ident_taken s (kids s RDefs 1) (s2l "mid"%string) = true.
 Proof. vm_compute. repeat split. Qed.
+
+(* the hypotheses of C08_add_never_refused_by_name on that history: the walk enters _make_instance_unique
+   on instance a (6) in the start state; the cell (3) has no name *)
+Example C08_unnamed_cell_round :
+  let s := run c08_unnamed_design init in
+  let x := mkX s 0 0 in
+  top s 0 = Some 8 /\ iref s 8 = Some 5 /\ In (x, 6) (uniq_rounds 20 x (kids s RChildren 5)) /\
+  iref s 6 = Some 3 /\ par s RDefs 3 = Some 1 /\ snd (fst (clone_definition s 3)) = None /\
+  snd (rename_block (mkX (fst (fst (clone_definition s 3))) 0 0) 1 3 9) = None.
+Proof.
+  intros s x. split; [vm_compute; reflexivity|]. split; [vm_compute; reflexivity|].
+  split; [|vm_compute; repeat split].
+  assert (Hk : kids s RChildren 5 = [6; 7]) by (vm_compute; reflexivity). rewrite Hk.
+  apply (uniq_rounds_head 19 x 6 [7]). vm_compute. reflexivity.
+Qed.
 
 (* The uniqueness clause without the two side conditions of C08_makes_unique (top definition
    referenced by the top instance only; top instance parentless) is kept here as first written; it is
